@@ -70,6 +70,19 @@ func expandC10(t *testing.T, seed uint64, tier string) []*core.Plan {
 			p.Items = append(p.Items, core.Item{K: "hold", A: r.Intn(3)})
 		}
 	}
+	if r.Chance(1, 6) {
+		// a clean session: one connection, nothing is resumed (neither side keeps
+		// state); within the connection every handshake must still be answered
+		p.SetKnob("cleansess", 1)
+		var items []core.Item
+		for _, it := range p.Items {
+			if it.K != "reconnect" && it.K != "hold" {
+				items = append(items, it)
+			}
+		}
+		p.Items = items
+		return []*core.Plan{p}
+	}
 	out := []*core.Plan{p}
 	// fault enumeration: every packet the client writes on its first two connections
 	base := runC10(t, p)
@@ -127,6 +140,7 @@ type c10Run struct {
 	cberr  int
 	early  bool
 	nocb   bool
+	clean  bool
 	seen   map[*Conn]int
 	closer chan struct{}
 	// held callbacks
@@ -179,7 +193,7 @@ func (r *c10Run) connect() {
 	r.cur = c
 	cfg := client.NewConfigWithClientID("sim://broker", "c10")
 	cfg.Dialer = w
-	cfg.CleanSession = false
+	cfg.CleanSession = r.clean
 	cfg.KeepAlive = "0s"
 	cfg.AlwaysAnnounceOnPublish = r.early
 	f, err := c.Connect(cfg)
@@ -309,7 +323,7 @@ func runC10(t *testing.T, p *core.Plan) *core.Result {
 	ptxt := core.Bubble(t, p.Seed, p.Yield, func() {
 		w = NewWorld(p.Seed, res)
 		w.Chunk = p.Knob("chunk", 0)
-		r := &c10Run{w: w, res: res, seen: map[*Conn]int{}, cberr: p.Knob("cberr", 0), early: p.Knob("early", 0) == 1, nocb: p.Knob("nocb", 0) == 1}
+		r := &c10Run{w: w, res: res, seen: map[*Conn]int{}, cberr: p.Knob("cberr", 0), early: p.Knob("early", 0) == 1, nocb: p.Knob("nocb", 0) == 1, clean: p.Knob("cleansess", 0) == 1}
 		r.sess = &ProbeSession{W: w, Inner: session.NewMemorySession()}
 		prompt := p.Knob("defer", 0) == 0
 		fconn, fsend, fpost := p.Knob("fconn", 0), p.Knob("fsend", 0), p.Knob("fpost", 0) == 1
@@ -356,7 +370,7 @@ func runC10(t *testing.T, p *core.Plan) *core.Result {
 				}
 				r.absorb(prompt)
 			}
-			if (r.dead || (r.bc() != nil && r.bc().BEOF)) && w.dials < 11 {
+			if (r.dead || (r.bc() != nil && r.bc().BEOF)) && w.dials < 11 && !r.clean {
 				r.resume()
 				w.Settle()
 				r.absorb(prompt)
@@ -466,7 +480,7 @@ func runC10(t *testing.T, p *core.Plan) *core.Result {
 			if open == 0 {
 				break
 			}
-			if round >= 2 && w.dials < 11 {
+			if round >= 2 && w.dials < 11 && !r.clean {
 				r.resume()
 			}
 		}
@@ -699,6 +713,9 @@ func (r *c10Run) judge(p *core.Plan) {
 	res.Count("qos2_completed", int64(done2))
 	res.Count("callbacks", int64(len(r.cbs)))
 	res.Count("client_connections", int64(r.w.dials))
+	if r.clean {
+		res.Count("clean_session_runs", 1)
+	}
 	if r.nocb {
 		res.Count("runs_without_callback", 1)
 	}
